@@ -236,8 +236,7 @@ func (ex *Exec) initIntrinsics() {
 		}
 		st.locks[k] = 1
 		st.events = append(st.events, Event{Kind: "lock", Args: []Value{args[0]}})
-		ex.havocOnLock(st, args[0].(Ptr))
-		return nil
+		return ex.havocOnLock(st, args[0].(Ptr))
 	}
 	in["(*sync.Mutex).Unlock"] = func(ex *Exec, st *State, args []Value, site ssa.CallInstruction) Value {
 		k := ptrKey(args[0].(Ptr))
@@ -265,8 +264,7 @@ func (ex *Exec) initIntrinsics() {
 		}
 		st.locks[k] += 2
 		st.events = append(st.events, Event{Kind: "rlock", Args: []Value{args[0]}})
-		ex.havocOnLock(st, args[0].(Ptr))
-		return nil
+		return ex.havocOnLock(st, args[0].(Ptr))
 	}
 	in["(*sync.RWMutex).RUnlock"] = func(ex *Exec, st *State, args []Value, site ssa.CallInstruction) Value {
 		k := ptrKey(args[0].(Ptr))
@@ -554,8 +552,29 @@ func (ex *Exec) indexByte(cells []*Term, ln *Term, b *Term) *Term {
 }
 
 // havocOnLock is the environment step of thread-modular harnesses; configured by the harness.
-func (ex *Exec) havocOnLock(st *State, mu Ptr) {
-	// harness hook: a function named vOnLock in the stubs table is called by name instead (see callNative)
+// havocOnLock is the environment step of thread-modular harnesses: right after a lock is
+// acquired the harness function named by the spec's on_lock runs (with the mutex address), and
+// may change the shared state the lock protects the way other goroutines could have meanwhile.
+func (ex *Exec) havocOnLock(st *State, mu Ptr) Value {
+	if ex.Spec == nil || ex.Spec.OnLock == "" || ex.inInit {
+		return nil
+	}
+	fn := ex.lookupHarnessFn(ex.Spec.OnLock)
+	if fn == nil {
+		unsupported("on_lock function %s not found", ex.Spec.OnLock)
+	}
+	if st.top().RunningDefers {
+		return nil // locks taken inside deferred calls are not havoc points
+	}
+	// the hook itself may lock: do not recurse
+	for _, fr := range st.frames {
+		if fr.Fn == fn {
+			return nil
+		}
+	}
+	nf := ex.newFrame(fn, []Value{Ptr{Obj: mu.Obj, Path: mu.Path}}, nil, nil)
+	st.frames = append(st.frames, nf)
+	return pushed{}
 }
 
 // callNative runs engine-made function values.
